@@ -61,7 +61,7 @@ theorem Lift.get (L : Lift R A HR h) : Resp R EM.get := fun c => L.refl c
 /-- the entries one invocation of callback `cb` in phase `ph` may append are all allowed -/
 def EntryOk (A : Cfg → Entry → Prop) (HR : Res → Prop) (x : Ctx) (ph : Phase) (cb : CbId) : Prop :=
   ∀ c, A c (.cbBegin x.t.tid ph cb c.cur x.t.event x.src x.tgt) ∧
-       (∀ r, HR r → A c (.sendRet x.t.tid ph cb r)) ∧ A c (.cbEnd x.t.tid ph cb)
+       (∀ r, HR r → A c (.sendRet x.t.tid ph cb r)) ∧ ∀ v, A c (.cbEnd x.t.tid ph cb v)
 
 theorem sendsLoop_lift (L : Lift R A HR h) (x : Ctx) (ph : Phase) (cb : CbId) (ok : EntryOk A HR x ph cb)
     (es : List EventId) : Resp R (sendsLoop h x ph cb es) := by
@@ -96,8 +96,9 @@ theorem runCb_lift (L : Lift R A HR h) (m : Machine) (x : Ctx) (ph : Phase) (cb 
   split
   · exact L.throw _
   · refine L.bind (fun c => ?_) fun _ => L.pure _
-    have := L.log c [.cbEnd x.t.tid ph cb] c.nextInv
-      (by intro e he; simp at he; subst he; exact (ok c).2.2)
+    have := L.log c [.cbEnd x.t.tid ph cb
+        (m.behav cb cfg.nextInv { tid := x.t.tid, state := cfg.cur, event := x.t.event }).ret] c.nextInv
+      (by intro e he; simp at he; subst he; exact (ok c).2.2 _)
     simpa [logAppend, EM.modify] using this
 
 theorem runGroup_lift (L : Lift R A HR h) (m : Machine) (x : Ctx) (ph : Phase) (cs : List CbId)
